@@ -395,7 +395,17 @@ def user_projection(mc, km: h5lib.KeyMap, tk: h5lib.Tokens) -> Dict[str, Any]:
     mc.visit(lambda n: names.append(n) or None)
     if sorted([km.abs_key(s) for s in n.split("/")] for n in names) != p["visit"]:
         extra.append("visit and visititems disagree")
-    return {"uview": p["view"], "uvisit": p["visit"], "uextra": extra}
+    # what every node lists as attached metadata (schema names), through a freshly looked-up wrapper
+    umeta: List[Dict[str, Any]] = []
+    for n in p["view"]:
+        try:
+            node = mc[km.path(n["p"])] if n["p"] else mc
+            for sname in sorted(node.meta.keys()):
+                umeta.append({"node": n["p"], "schema": str(sname), "in": bool(sname in node.meta),
+                              "got": node.meta.get(sname) is not None})
+        except Exception as ex:
+            umeta.append({"node": n["p"], "schema": "ERROR " + type(ex).__name__, "in": False, "got": False})
+    return {"uview": p["view"], "uvisit": p["visit"], "uextra": extra, "umeta": umeta}
 
 
 def index_snapshot(mc) -> str:
